@@ -78,6 +78,7 @@ func (s *spySigner) Sign(_ io.Reader, content []byte) ([]byte, error) {
 type spyVerifier struct {
 	alg     Algorithm
 	fail    bool
+	failErr error // what a failing verifier returns (default errSpyVerify; built-in verifiers return ErrVerification)
 	calls   int
 	content []byte
 	sig     []byte
@@ -89,6 +90,9 @@ func (v *spyVerifier) Verify(content, signature []byte) error {
 	v.content = content
 	v.sig = signature
 	if v.fail {
+		if v.failErr != nil {
+			return v.failErr
+		}
 		return errSpyVerify
 	}
 	return nil
